@@ -120,9 +120,29 @@ fn spawn_child(name: &str, bound: Option<usize>, timeout: Duration, checkpoint: 
             r.ok = status.map(|s| s.success()).unwrap_or(false);
         }
     }
-    let tail: Vec<&str> = stderr.lines().filter(|l| !l.trim().is_empty()).collect();
-    let keep = tail.len().saturating_sub(12);
-    r.stderr_tail = tail[keep..].join(" | ");
+    // the informative lines: panic messages, assertion operands, loom's deadlock report
+    let lines: Vec<&str> = stderr.lines().collect();
+    let mut picked: Vec<String> = vec![];
+    for (i, l) in lines.iter().enumerate() {
+        let t = l.trim();
+        if t.contains("panicked at") || t.to_lowercase().contains("deadlock") {
+            picked.push(t.to_string());
+            if let Some(n) = lines.get(i + 1) {
+                picked.push(n.trim().to_string());
+            }
+        } else if t.starts_with("left:") || t.starts_with("right:") {
+            picked.push(t.to_string());
+        }
+        if picked.len() >= 8 {
+            break;
+        }
+    }
+    if picked.is_empty() {
+        let tail: Vec<&str> = lines.iter().cloned().filter(|l| !l.trim().is_empty()).collect();
+        let keep = tail.len().saturating_sub(6);
+        picked = tail[keep..].iter().map(|s| s.to_string()).collect();
+    }
+    r.stderr_tail = picked.join(" | ");
     if r.stderr_tail.len() > 1500 {
         let cut = r.stderr_tail.len() - 1500;
         let mut i = cut;
@@ -146,7 +166,7 @@ pub fn main_with(property: &'static str, rule: &'static str, configs: &'static [
         run_child(cfg);
     }
     let explore = |ctx: &Ctx| {
-        let timeout = Duration::from_secs(ctx.pick(50, 40 * 60));
+        let timeout = Duration::from_secs(ctx.pick(150, 40 * 60));
         let results: Vec<(usize, Option<usize>, ChildResult)> = configs
             .par_iter()
             .enumerate()
